@@ -107,6 +107,11 @@ def run(ctx):
                 owner = ce.methods[m][2]
                 if (cname, m) in SETTERS or (owner, m) in SETTERS:
                     continue
+                inl_ = getattr(repo.modules.get(ce.methods[m][0]), 'inliner', None)
+                if m.startswith('_') and not m.startswith('__') and inl_ is not None and (owner, m) in getattr(inl_, 'new_methods', {}):
+                    # a new private helper (not part of the reference API): what it writes counts where it is called from
+                    # (the callers' effects include it), not as an entry point of its own
+                    continue
                 for k in ef.may:
                     if k in ef.transient:
                         continue
